@@ -46,6 +46,12 @@ func genC06(c *Ctx) *Plan {
 		}
 		p.Ops = append(p.Ops, Op{At: at, Kind: "confirm", S: names[r.intn(len(names))], A: int64(r.pick(0, 0, 0, 0, 1, -1))})
 	}
+	// hearsay by push/pull: a peer's table lists px as suspect or dead. The library turns that into
+	// a suspicion in the local node's own name, so it counts like one confirmation by the observer
+	// (never when the observer is the accuser), whoever the push/pull partner was and however often
+	for i := 0; i < r.pick(0, 0, 1, 2, 3); i++ {
+		p.Ops = append(p.Ops, Op{At: 1 + r.i64n(int64(smax*1.1)), Kind: "ppmerge", S: "obs", A: int64(r.pick(0, 0, 0, 1, -1)), B: int64(r.intn(2))})
+	}
 	// stale claims (older incarnation) of every kind: must not touch the running timer
 	for i := 0; i < r.pick(0, 0, 1, 2); i++ {
 		p.Ops = append(p.Ops, Op{At: 1 + r.i64n(int64(smax)), Kind: "stale", S: []string{"dead", "alive", "leave", "suspect"}[r.intn(4)], S2: names[2+r.intn(4)], A: int64(r.pick(1, 2))})
@@ -192,9 +198,18 @@ func execC06(c *Ctx) {
 		}
 		now := b.sim.Now()
 		switch op.Kind {
-		case "confirm", "resuspect":
+		case "confirm", "resuspect", "ppmerge":
 			cinc := uint32(int64(inc) + op.A)
-			m.suspectNode(&suspect{Incarnation: cinc, Node: "px", From: op.S})
+			if op.Kind == "ppmerge" {
+				st := StateSuspect
+				if op.B == 1 {
+					st = StateDead
+				}
+				m.mergeState([]pushNodeState{{Name: "px", Addr: net.IPv4(10, 0, 1, 1).To4(), Port: 7946, Incarnation: cinc, State: st, Vsn: c01Vsn(0)}})
+				c.Reach("hearsay_by_pushpull_during_suspicion")
+			} else {
+				m.suspectNode(&suspect{Incarnation: cinc, Node: "px", From: op.S})
+			}
 			if cinc >= inc {
 				if cur != nil {
 					before := cur.c
